@@ -42,22 +42,7 @@ WORK = os.environ.get("EXCFLOW_SELFTEST_DIR", "/tmp/w2-selftest")
 # ------------------------------------------------------------------------------------------------
 
 def private_workspace():
-    ws = os.path.join(WORK, "lean")
-    os.makedirs(os.path.join(ws, "NfcVerif", "Gen"), exist_ok=True)
-    with open(os.path.join(ws, "lakefile.toml"), "w") as f:
-        f.write('name = "NfcVerif"\nversion = "0.1.0"\ndefaultTargets = ["NfcVerif"]\n\n[[lean_lib]]\nname = "NfcVerif"\n'
-                'globs = ["NfcVerif.+"]\n')
-    shutil.copy(os.path.join(excflow.LEAN, "lean-toolchain"), os.path.join(ws, "lean-toolchain"))
-    for sub in ("Model", "Lemmas", "Props"):
-        os.makedirs(os.path.join(ws, "NfcVerif", sub), exist_ok=True)
-        for name in sorted(os.listdir(os.path.join(excflow.LEAN, "NfcVerif", sub))):
-            if not (name.startswith("ExcFlow") and name.endswith(".lean")):
-                continue
-            src = os.path.join(excflow.LEAN, "NfcVerif", sub, name)
-            dst = os.path.join(ws, "NfcVerif", sub, name)
-            if not os.path.exists(dst) or open(src).read() != open(dst).read():
-                shutil.copy(src, dst)
-    return ws
+    return excflow.private_workspace(WORK)
 
 
 PROPS_TARGETS = [excflow.MODULE] + sorted(excflow.MODULES.values())
@@ -715,11 +700,9 @@ MUTATIONS = [
     ("disc-pn53x-sense-wrong-class", "raise another class (pn53x sense_ttf: unsupported bit rate)", "pn53x_sense_escapes",
      sub("clf/pn53x.py", "            self.log.warning(message)\n            raise ValueError(message)\n\n        if not self.chipset.read_register(\"CIU_TxControl\")",
          "            self.log.warning(message)\n            raise KeyError(message)\n\n        if not self.chipset.read_register(\"CIU_TxControl\")")),
-    ("disc-udp-listen-dep-repaired", "wrap calls in a handler (a repair of the connect(llcp) defect: the witness becomes stale)", "clf_connect_llcp_commerror",
-     lambda root: [sub("clf/udp.py", "                self._send_data(brty, data, addr)\n                brty, data, addr = self._recv_data(wait, brty)\n                try:",
-                       "                try:\n                    self._send_data(brty, data, addr)\n                    brty, data, addr = self._recv_data(wait, brty)\n                except nfc.clf.CommunicationError:\n                    return None\n                try:")(root),
-                   sub("clf/udp.py", "                    self._send_data(brty, data, addr)\n                    brty = ('106A', '212F', '424F')[target.psl_req[3] >> 3 & 7]\n                    target.brty, data, addr = self._recv_data(wait, brty)",
-                       "                    try:\n                        self._send_data(brty, data, addr)\n                        brty = ('106A', '212F', '424F')[target.psl_req[3] >> 3 & 7]\n                        target.brty, data, addr = self._recv_data(wait, brty)\n                    except nfc.clf.CommunicationError:\n                        return None")(root)]),
+    ("disc-udp-listen-dep-unrepaired", "move calls out of the try (reverts fixes/C18/0005: the peer falls silent after ATR_REQ)", "clf_connect_no_commerror",
+     sub("clf/udp.py", "                try:\n                    self._send_data(brty, data, addr)\n                    brty, data, addr = self._recv_data(wait, brty)\n                except nfc.clf.CommunicationError:\n                    return None\n",
+         "                self._send_data(brty, data, addr)\n                brty, data, addr = self._recv_data(wait, brty)\n")),
     ("disc-device-connect-wrong-class", "raise another class (device.connect: access denied)", "frontend_escapes",
      sub("clf/device.py", "                        raise IOError(errno.EACCES, os.strerror(errno.EACCES))", "                        raise RuntimeError(os.strerror(errno.EACCES))")),
     ("disc-benign-refactor", "harmless edit (log line in listen): nothing may break", None,
